@@ -19,6 +19,7 @@ import (
 	"github.com/ipld/go-ipld-prime/fluent/qp"
 	cidlink "github.com/ipld/go-ipld-prime/linking/cid"
 	"github.com/ipld/go-ipld-prime/node/basicnode"
+	mh "github.com/multiformats/go-multihash"
 	"pgregory.net/rapid"
 )
 
@@ -232,7 +233,7 @@ func checkMapContract(n datamodel.Node, neverKeys []string) (pairs int, err erro
 	return pairs, nil
 }
 
-const c15Rule = "case = dag-pb link list of 0..12 links with names absent / empty / duplicated / drawn (any order; both as an in-memory unsorted node and after an encode+decode round trip) viewed as Directory (type 1) and as generic link map (no Data, garbage Data, Symlink, Metadata); plus well-formed sharded directories from the builder and from reference insert/remove histories; " +
+const c15Rule = "case = dag-pb link list of 0..12 (one in six: 13..70) links with names absent / empty / duplicated / drawn (any order; both as an in-memory unsorted node and after an encode+decode round trip) viewed as Directory (type 1) and as generic link map (no Data, garbage Data, Symlink, Metadata); plus well-formed sharded directories from the builder and from reference insert/remove histories; " +
 	"oracle = map-node contract: pairs yielded = Length(), then Done and no further pair; every yielded key is found by all four lookup entry points, which agree, and resolves to a link yielded under it; never-yielded keys (incl. 'Links', 'Data', 'Hash') are not found; LookupByNode(non-string) errors; " +
 	"non-trivial = list with a duplicate or nameless link, or a sharded directory of depth >= 2; distinct by (view, link count, name pattern)"
 
@@ -281,6 +282,22 @@ func TestC15_P_LinkLists(t *testing.T) {
 				seen["\x00empty"] = true
 			}
 			links = append(links, l)
+		}
+		if nl > 12 && rapid.Bool().Draw(t, "ascending") {
+			// the named links in ascending name order, the nameless ones staying where they were drawn: nearly the order a
+			// sorting writer produces, except that it is another writer's (nameless links not in front)
+			var at []int
+			var names []string
+			for i, l := range links {
+				if l.name != nil {
+					at, names = append(at, i), append(names, *l.name)
+				}
+			}
+			sort.Strings(names)
+			for j, i := range at {
+				links[i].name = strp(names[j])
+			}
+			pattern += " ascending"
 		}
 		view := rapid.SampledFrom([]string{"directory", "no-data", "garbage-data", "symlink", "metadata"}).Draw(t, "view")
 		var payload []byte
@@ -358,9 +375,14 @@ func TestC15_P_ShardedDirs(t *testing.T) {
 	rapid.Check(t, func(t *rapid.T) {
 		st := NewStore()
 		var root cid.Cid
-		src := rapid.SampledFrom([]string{"builder", "reference"}).Draw(t, "source")
+		src := rapid.SampledFrom([]string{"builder", "reference", "reference-inlined"}).Draw(t, "source")
 		names, _, fanout := genNamesFanout(t, nameOpts{Max: maxN})
 		if src == "builder" {
+			if rapid.IntRange(0, 3).Draw(t, "framedDagPB") == 0 {
+				// the link system's dag-pb codec is a custom one (an envelope around every block): what the caller's link
+				// system decodes the root with is what every child shard has to be decoded with
+				st.PBEnvelope = rapid.SampledFrom([]int{1, 5, 40}).Draw(t, "pbEnvelope")
+			}
 			es := make([]entrySpec, len(names))
 			for i, n := range names {
 				es[i] = entryFor(n, 0)
@@ -374,6 +396,11 @@ func TestC15_P_ShardedDirs(t *testing.T) {
 			sh, err := refShard(st, fanout)
 			if err != nil {
 				t.Fatal(err)
+			}
+			if src == "reference-inlined" {
+				// the writer inlines small blocks: shard blocks of up to a few hundred bytes get identity CIDs (the block is
+				// the link), which sibling shards with few entries share long stretches of
+				sh.SetCidBuilder(inlineBuilder{v1Prefix(), rapid.SampledFrom([]int{120, 200, 400}).Draw(t, "inlineLimit")})
 			}
 			ctx := context.Background()
 			for _, n := range names {
@@ -550,5 +577,60 @@ func TestC15_R_LongLivedNode(t *testing.T) {
 	}
 	if _, err := checkMapContract(rn, []string{"nope"}); err != nil {
 		t.Fatalf("C15 long-lived node after %d lookups: %v", total, err)
+	}
+}
+
+// Sharded directories written by the reference implementation with a CID builder that inlines small blocks: most child
+// shards of a directory of naturally named entries are then identity CIDs (the shard block itself is the link), and
+// sibling shards with few entries differ in a few bytes only.
+func TestC15_R_ReferenceHAMTWithInlinedShards(t *testing.T) {
+	for _, c := range []struct{ fanout, n, limit int }{{256, 1500, 400}, {16, 600, 300}, {1024, 3000, 400}} {
+		st := NewStore()
+		sh, err := refShard(st, c.fanout)
+		if err != nil {
+			t.Fatal(err)
+		}
+		sh.SetCidBuilder(inlineBuilder{v1Prefix(), c.limit})
+		want := map[string]cid.Cid{}
+		for i := 0; i < c.n; i++ {
+			n := fmt.Sprintf("entry-%04d", i)
+			want[n] = sumRaw([]byte(n))
+			if err := sh.SetLink(context.Background(), n, &format.Link{Name: n, Size: 1, Cid: want[n]}); err != nil {
+				t.Fatal(err)
+			}
+		}
+		nd, err := sh.Node()
+		if err != nil {
+			t.Fatal(err)
+		}
+		inlined := 0
+		for b := range st.Blocks {
+			if dm, _ := mh.Decode(b.Hash()); dm != nil && dm.Code == mh.IDENTITY {
+				inlined++
+			}
+		}
+		if inlined < 10 {
+			t.Fatalf("harness: only %d inlined shard blocks", inlined)
+		}
+		ls := st.LinkSystem()
+		for _, reifier := range []string{"unixfs", "unixfs-preload"} {
+			rn, err := loadReified(ls, nd.Cid(), reifier)
+			if err != nil {
+				t.Fatalf("C15: reference HAMT (fanout %d, %d entries, %d inlined shard blocks) via %s: %v", c.fanout, c.n, inlined, reifier, err)
+			}
+			pairs, err := checkMapContract(rn, []string{"nope", "entry-", "entry-99999"})
+			if err != nil || pairs != c.n {
+				t.Fatalf("C15: reference HAMT with inlined shard blocks (fanout %d, %d entries, %d inlined) via %s: %d pairs, %v", c.fanout, c.n, inlined, reifier, pairs, err)
+			}
+			for name, wc := range want {
+				v, err := rn.LookupByString(name)
+				if err != nil {
+					t.Fatalf("C15: reference HAMT with inlined shard blocks (fanout %d) via %s: lookup of entry %q: %v", c.fanout, reifier, name, err)
+				}
+				if got, _ := linkOf(v); got != wc {
+					t.Fatalf("C15: reference HAMT with inlined shard blocks (fanout %d) via %s: lookup of %q returned another entry's link", c.fanout, reifier, name)
+				}
+			}
+		}
 	}
 }
